@@ -69,11 +69,18 @@ RECURSIVE GoFact(_)
 GoFact(n) == IF n <= 1 THEN 1 ELSE n * GoFact(n - 1)
 RECURSIVE GoProdFact(_)
 GoProdFact(es) == IF Len(es) = 0 THEN 1 ELSE GoFact(es[1]) * GoProdFact(Tail(es))
+RECURSIVE GoBinom(_, _)
+GoBinom(n, k) == IF k = 0 THEN 1 ELSE (GoBinom(n, k - 1) * (n - k + 1)) \div k
+RECURSIVE GoMultinom(_)
+\* (sum es)! / prod es[i]!
+GoMultinom(es) == IF Len(es) <= 1 THEN 1 ELSE GoBinom(TcSum(es), es[1]) * GoMultinom(Tail(es))
+RECURSIVE GoRising(_, _)
+GoRising(a, k) == IF k = 0 THEN 1 ELSE a * GoRising(a + 1, k - 1)
 
 \* ------------------------------------------------------------------ monomials on references
-\* int over the unit simplex of dimension Len(es) of xi^es
-SimplexMoment(es) == IF GoMutant = "simplex-moment" THEN GoNorm(<<GoProdFact(es), GoFact(Len(es) + TcSum(es) + 1)>>)
-                     ELSE GoNorm(<<GoProdFact(es), GoFact(Len(es) + TcSum(es))>>)
+\* int over the unit simplex of dimension m = Len(es) of xi^es = prod es[i]! / (m + sum es)!
+\*   = 1 / (multinomial(es) (S + 1) ... (S + m)) with S = sum es   (no large factorials)
+SimplexMoment(es) == <<1, GoMultinom(es) * GoRising(TcSum(es) + 1, IF GoMutant = "simplex-moment" THEN Len(es) + 1 ELSE Len(es))>>
 RECURSIVE RefMoment(_, _)
 \* int over the reference d of xi^e (product over the simplex factors)
 RefMoment(d, e) == IF Len(d) = 0 THEN <<1, 1>>
